@@ -6,6 +6,7 @@ from rules import agent as A
 from rules import agent_e2 as AE
 from e1 import construct_sites, field_accesses
 
+THOROUGH_CONFIGS = ("release", "arbitrary")
 LEVEL = "proof"
 WRITE_ONCE = ("bytes", "from", "to", "transport", "transaction_id")
 
